@@ -374,6 +374,52 @@ Proof.
   destruct (drop_while cls_prefix r) as [|b t]; [reflexivity|]. destruct (is_slash b); [apply G|reflexivity].
 Qed.
 
+(* a plain topic (characters of the second class, not ending in a slash) is read back exactly from the
+   canonical path and from its spellings without the leading or with a trailing slash *)
+Local Close Scope list_scope.
+Fixpoint ends_with_slash (s : string) : bool :=
+  match s with
+  | EmptyString => false
+  | String a r => match r with EmptyString => is_slash a | _ => ends_with_slash r end
+  end.
+
+Lemma trim_suffix_no_slash s : ends_with_slash s = false -> trim_suffix_slash s = s.
+Proof.
+  induction s as [|a r IH]; [reflexivity|]. cbn [ends_with_slash trim_suffix_slash].
+  destruct r as [|b r']; [intros ->; reflexivity|]. intros H. rewrite (IH H). reflexivity.
+Qed.
+
+Lemma trim_suffix_app a t : t <> "" -> trim_suffix_slash (a ++ t) = a ++ trim_suffix_slash t.
+Proof.
+  intros Ht. induction a as [|c a IH]; [reflexivity|].
+  cbn [append trim_suffix_slash]. rewrite IH.
+  destruct (a ++ t) eqn:E; [|reflexivity].
+  destruct a; cbn in E; [contradiction|discriminate].
+Qed.
+
+Lemma plain_topic_roundtrip t :
+  t <> "" -> all_chars cls_topic t = true -> ends_with_slash t = false ->
+  prefix_of_path (slashify ("/session/" ++ t)) = "session" /\
+  topic_of_path (slashify ("/session/" ++ t)) = t /\
+  prefix_of_path (slashify ("session/" ++ t)) = "session" /\
+  topic_of_path (slashify ("session/" ++ t ++ "/")) = t.
+Proof.
+  intros Hne Hall Hend.
+  assert (S1 : slashify ("/session/" ++ t) = "/session/" ++ t).
+  { unfold slashify. rewrite trim_suffix_app by exact Hne. rewrite trim_suffix_no_slash by exact Hend. reflexivity. }
+  assert (S2 : slashify ("session/" ++ t) = "/session/" ++ t).
+  { unfold slashify. rewrite trim_suffix_app by exact Hne. rewrite trim_suffix_no_slash by exact Hend. reflexivity. }
+  assert (S3 : slashify ("session/" ++ t ++ "/") = "/session/" ++ t).
+  { unfold slashify. rewrite trim_suffix_app by (destruct t; discriminate).
+    assert (G : forall u, u <> "" -> trim_suffix_slash (u ++ "/") = u).
+    { induction u as [|c u IH]; [contradiction|]. intros _. cbn [append trim_suffix_slash].
+      destruct u as [|d u']; [reflexivity|]. cbn [append]. cbn [append] in IH. rewrite IH by discriminate. reflexivity. }
+    rewrite G by exact Hne. reflexivity. }
+  rewrite S1, S2, S3. cbn. rewrite (take_while_all _ _ Hall). auto.
+Qed.
+
+Local Open Scope list_scope.
+
 Lemma refused_then_next cfg s r o :
   refusal (snd (handle true cfg s r)) -> step cfg (fst (step cfg s (OReq r))) o = step cfg s o.
 Proof.
